@@ -119,6 +119,13 @@ def cmp_(op, a, b):
         # constants to the right
         if is_const(a) or (not is_const(b) and repr(a) > repr(b)):
             a, b = b, a
+        # k*x + c == d  <=>  x == (d-c)/k  (the term algebra is over the integers)
+        if is_const(b) and isinstance(a, tuple) and a[:1] == ("lin",) and len(a[2]) == 1 and a[2][0][1] not in (0, 1):
+            x_, k_ = a[2][0]
+            num = b[1] - a[1]
+            if num % k_ == 0:
+                return cmp_(op, x_, C(num // k_))
+            return C(0 if op == "==" else 1)
         # comparison of a boolean-valued term with 0/1
         if is_const(b) and a[0] in ("cmp", "not", "and", "or"):
             if (op == "!=" and b[1] == 0) or (op == "==" and b[1] == 1):
